@@ -86,3 +86,9 @@ add("C10", "fault_enumeration", "exact sequential reference model over exhaustiv
     "2-split of short bodies) and every disconnect position; outcomes must equal the model exactly, repeated accesses must return the identical object, and no input may be requested after the terminal message. "
     "Concurrent histories (2-3 tasks, yield vectors, yields inside receive()) are judged by the named safety invariants (complete body or documented error, compute-once, no value despite disconnect, no loss).",
     "Trusts the 80-line sequential model; close() outcome not judged; concurrent histories are not judged by strict linearizability (explained in DESIGN.md).")
+add("C06", "fault_enumeration", "schedule exploration with history checkers: WSGI thread relay driven by a rendezvous director (states reached by observation, not sleeps) and by sys.monitoring LINE-event yield injection, with deadlock wait-for analysis over sys._current_frames(); ASGI on a virtual-time loop over a disconnect/delay grid with a logical step budget",
+    "Liveness is restated as bounded progress on logical time. WSGI SendEventResponse: every (producer length, close point, producer/relay state at close, what the producer does next, ping) scenario is driven by a "
+    "director that opens the producer's gate only after the closer is observed blocked, plus PRNG-driven pauses injected between the statements of render_stream/push; a close() that does not return is analysed "
+    "for a wait-for cycle (violation at once) - otherwise inconclusive. ASGI Stream/SendEvent responses run on a virtual-time grid of producer delay x send delay x disconnect time (+-eps) x raise point. Monitors: "
+    "bounded return, exactly-once cleanup judged at quiescence, no leaked pool thread / pending task, delivered ids are a prefix of yielded ids, producer not driven beyond its next step after close, exception identity.",
+    "Wall clock only in watchdogs (expiry without a proven cycle = inconclusive); producer cleanup marker is synchronous; ASGI bound = disconnect + (producer step | ping) + 3 x send delay in virtual time.")
